@@ -220,11 +220,7 @@ def complete(rng, case):
                 free.remove(twin)
                 case["prog"].append(["copy", k[0], k[1], twin[0], twin[1]])
             elif rng.random() < 0.8:
-                v = rand_value(rng, parse(f)[2])
-                if parse(f)[2] == "Q" and v >= 2 ** 63 or parse(f)[2] == "x" and abs(v) >= 2 ** 31 * 100000:
-                    v = v % 2 ** 31       # constants the generator is not asked to encode here (C01/C02)
-                    v = v * 100000 if f == "x" else v
-                case["prog"].append(["store", k[0], k[1], v])
+                case["prog"].append(["store", k[0], k[1], rand_value(rng, parse(f)[2])])
     if kind == "percpu":
         specs = dict(case["classes"])
         pairs = []
@@ -287,18 +283,27 @@ def exc_name(e):
     return "other:" + type(e).__name__
 
 
+def fixed_base():
+    """FIXED_BASE of the working tree; the dyadic x values of `rand_value` are exact for 100000 = 2**5 * 3125"""
+    from ebpfcat.ebpf import Expression
+    fb = int(Expression.FIXED_BASE)
+    if fb != 100000:
+        raise ValueError(f"FIXED_BASE is {fb}: the generator of exact fixed-point values assumes 100000")
+    return fb
+
+
 def to_py(fmt, vals):
     """the Python value handed to / expected from the descriptor"""
     if fmt == "x":
-        v = vals[0] / 100000
-        assert Fraction(v) * 100000 == vals[0], "x value is not an exact dyadic decimal"
+        v = vals[0] / fixed_base()
+        assert Fraction(v) * fixed_base() == vals[0], "x value is not an exact dyadic decimal"
         return v
     return vals[0] if len(vals) == 1 else tuple(vals)
 
 
 def from_py(fmt, v):
     if fmt == "x":      # the scaled integer, recoverable from the float below 2**52 (larger ones: see the bytes)
-        n = round(Fraction(v) * 100000)
+        n = round(Fraction(v) * fixed_base())
         return [n if abs(n) < 2 ** 52 else "big"]
     return list(v) if isinstance(v, tuple) else [v]
 
@@ -450,8 +455,10 @@ def observe(case):
     b = Built(case, cpu_text=case.get("cpufile"))
     try:
         obs = {"sets": [], "prog": "ok", "reads": {}, "percpu": {}, "notes": []}
-        leaf_maps = dict(case["classes"])[case["main"]]["maps"]
-        sizes = {mn: getattr(b.maps[mn], "size", None) for mn in leaf_maps}
+        specs = dict(case["classes"])
+        decl_maps = [mn for c in mro_names(case, case["main"]) for mn in specs[c]["maps"]]
+        sizes = {mn: getattr(b.maps[mn], "size", None) for mn in decl_maps}
+        leaf_maps = [mn for mn in decl_maps if sizes[mn] is not None]      # the maps the object really initialised
         keys = all_keys(case)
         # positions and ranges as the implementation left them
         layout = {}
